@@ -15,7 +15,7 @@ from .execu import Exec, Frame, parse_annotation, loop_fingerprint, assigned_nam
 from .bufs import Buf, BufRef, BufView, BufCopy, FIELD
 from .flat import FlatView
 
-BUILTINS = {'round', 'array', 'nonzero', 'slice', 'transpose', 'split', 'full_like', 'solve', 'arange', 'atleast_1d', 'len', 'range', 'enumerate', 'min', 'max', 'abs', 'int', 'float', 'bool', 'empty', 'zeros', 'ones',
+BUILTINS = {'round', 'array', 'nonzero', 'slice', 'transpose', 'split', 'full_like', 'solve', 'arange', 'atleast_1d', 'len', 'range', 'enumerate', 'min', 'max', 'abs', 'int', 'float', 'bool', 'empty', 'ndarray', 'zeros', 'ones',
             'empty_like', 'zeros_like', 'sum', 'tuple', 'list', 'isinstance', 'print', 'zip', 'floor', 'sqrt',
             'exp', 'tanh', 'cosh', 'cos', 'sin', 'RuntimeError', 'ValueError', 'AssertionError', 'NotImplementedError',
             'str', 'reversed', 'sorted', 'all', 'any', 'prod', 'pi', 'mod', 'fabs', 'log', 'dict', 'set'}
@@ -232,6 +232,11 @@ class Engine(Exec):
             half = z3.RealVal('1/2')
             return simp(z3.If(frac < half, fl, z3.If(frac > half, fl + 1, z3.If(fl % 2 == 0, fl, fl + 1))))
         if name == 'floor':
+            if self.is_arr(args[0]):
+                # np.floor of an array: entry by entry, float result
+                a = args[0]
+                f = self.elem_fn(st, a)
+                return ExprArr(list(a.shape), lambda j, f=f: binop('Mult', V.py_floor(f(j)), Fraction(1)), REAL)
             r = V.py_floor(args[0])
             return binop('Mult', r, Fraction(1)) if name == 'floor' and not fr.spec_only else r
         if name in ('float', 'real'):
@@ -248,7 +253,8 @@ class Engine(Exec):
             n = binop('Sub', hi, lo)
             self.safety(st, fr, 'alloc_nonneg', compare('GtE', n, 0), node)
             return ExprArr([n], lambda j, lo=lo: binop('Add', lo, j[0]), INT)
-        if name in ('empty', 'zeros', 'ones'):
+        if name in ('empty', 'ndarray', 'zeros', 'ones'):
+            # np.ndarray(shape, dtype=..) allocates without initialising, like np.empty
             shp = args[0]
             if not isinstance(shp, (tuple, list)):
                 shp = (shp,)
@@ -257,7 +263,7 @@ class Engine(Exec):
             dt = kwargs.get('dtype', args[1] if len(args) > 1 else None)
             elem = INT if (isinstance(dt, FunVal) and dt.name == 'int') else REAL
             a = self.new_arr(st, len(shp), list(shp), elem, name)
-            if name != 'empty':
+            if name not in ('empty', 'ndarray'):
                 c = Z(0 if name == 'zeros' else 1)
                 c = ZR(c) if elem == REAL else c
                 st.heap[a.aid] = z3.K(INT, c) if len(shp) == 1 else z3.Lambda([z3.Int('lam!%d' % k) for k in range(len(shp))], c)
@@ -365,7 +371,20 @@ class Engine(Exec):
         if name == 'fdiv':
             return binop('FloorDiv', args[0], args[1])
         if name == 'fmod':
-            return binop('Mod', args[0], args[1])
+            if fr is not None and fr.spec_only:
+                return binop('Mod', args[0], args[1])     # specification language: floor-based remainder
+            # code position (np.fmod / math.fmod): C remainder a - trunc(a / b) * b, entry by entry on arrays
+            def cfmod(a, b):
+                return binop('Sub', a, binop('Mult', V.py_int(binop('Div', binop('Mult', a, Fraction(1)), b)), b))
+            a, b = args[0], args[1]
+            if self.is_arr(a):
+                if self.is_arr(b):
+                    raise OutOfReach('np.fmod with an array divisor')
+                f = self.elem_fn(st, a)
+                self.safety(st, fr, 'div_nonzero', compare('NotEq', b, 0), node)
+                return ExprArr(list(a.shape), lambda j, f=f, b=b: cfmod(f(j), b), a.elem if is_intlike(b) or is_cint(b) else REAL)
+            self.safety(st, fr, 'div_nonzero', compare('NotEq', b, 0), node)
+            return cfmod(a, b)
         if name == 'mod':
             return self.do_binop('Mod', args[0], args[1], st, fr, node)
         if name in ('all', 'any'):
@@ -660,6 +679,13 @@ class Engine(Exec):
         if f.kind == 'param':
             ckey = f.ref
             c = self.ctx.contracts[ckey]
+            if c.elementwise and c.pure and len(args) == 1 and not kwargs and self.is_arr(args[0]):
+                # assumed contract of a profile function applied to an array: it acts entry by entry
+                # (result[j] = f(arg[j]), same shape); stated as an assumption in the evidence
+                a = args[0]
+                ef = self.elem_fn(st, a)
+                decl = self.pure_decl(c.key, [REAL], REAL)
+                return [(st, ExprArr(list(a.shape), lambda j, ef=ef, decl=decl: decl(ZR(ef(j))), REAL))]
             return [(st, self.apply_contract(c, None, f.name, c.params_order, args, kwargs, st, fr, node))]
         if f.kind == 'class':
             return self.instantiate_class(f, args, kwargs, st, fr, node)
